@@ -61,6 +61,9 @@ def contract_mutants(rng, host):
     out.append(("no-new", q, ["Missing `new` method"]))
     q = _clone(host); q["new_mode"] = "params"
     out.append(("new-with-params", q, ["Parameters not allowed in `new`"]))
+    for mode in ("params_wild", "params_tuple", "params_self", "params_mut"):
+        q = _clone(host); q["new_mode"] = mode
+        out.append((f"new-with-{mode.replace('_', '-')}", q, ["Parameters not allowed in `new`"]))
     # unknown attribute arguments
     hs = [h for h in c(host)["handlers"] if h["kind"] in ("exec", "query", "sudo")]
     if hs:
